@@ -114,6 +114,18 @@ fn shapes(tier: Tier) -> Vec<Shape> {
                 })
                 .collect();
             v.push(Shape { name: format!("include_cycle[{}]", ps.iter().map(|p| placements[*p].0).collect::<Vec<_>>().join(">")), family: "include_cycle", templates: templates.clone(), main: "t0".into(), infinite: true, baseline: None });
+            // the same cycles through every other spelling of the include tag: optional includes and
+            // lists of choices have error paths of their own ("not found" is skipped, anything else is not)
+            for (fname, form) in [
+                ("ignore_missing", "{% include 'tN' ignore missing %}"),
+                ("choices", "{% include ['nope', 'tN'] %}"),
+                ("choices_ignore_missing", "{% include ['nope', 'tN'] ignore missing %}"),
+                ("choices_with_fallback_ignore_missing", "{% include ['tN', 'leaf', 'nope'] ignore missing %}"),
+            ] {
+                let mut t2: Vec<(String, String)> = (0..len).map(|i| (templates[i].0.clone(), templates[i].1.replace(&format!("{{% include 't{}' %}}", (i + 1) % len), &form.replace("tN", &format!("t{}", (i + 1) % len))))).collect();
+                t2.push(("leaf".into(), "leaf".into()));
+                v.push(Shape { name: format!("include_cycle[{}] form={}", ps.iter().map(|p| placements[*p].0).collect::<Vec<_>>().join(">"), fname), family: "include_cycle", templates: t2, main: "t0".into(), infinite: true, baseline: None });
+            }
             if len <= 2 {
                 for (sname, side) in [("after_helper_macro", "{% macro hp() %}h{% endmacro %}{{ hp() }}"), ("after_include", "{% include 'leaf' %}"), ("after_imported_helper", "{% from 'lib' import ih %}{{ ih() }}")] {
                     let mut t2: Vec<(String, String)> = templates.iter().map(|(n, s)| (n.clone(), s.replacen("{% include 't", &format!("{}{{% include 't", side), 1))).collect();
@@ -452,7 +464,7 @@ pub fn main(args: Args) -> i32 {
             level: "exploration",
             tier: args.tier,
             seed: args.seed,
-            rule: format!("{} recursive program shapes: every macro cycle of length 1..={} whose edges are each wrapped by one of 8 scoped constructs (plain, call block, filter block, set block, for, with, if, autoescape) x 3 per-frame work decorations, x 7 things a frame does and gets back from before it recurses (nothing, a helper macro call, one on every other frame, a finished call block, an include, an imported helper, filters and tests); every include cycle of length 1..={} over 5 placements (top level, loop, macro, block, with+filter); import cycles (top-level, inside macros, macro+include+import); recursive loops over 10 000-deep data, over self-similar data and inside macros; super() chains of 10..1200 templates; block self-calls, caller/higher-order/alias/default-argument/nested-definition recursion; x recursion_limit in {{1,2,3,7,50,250,499,500}} x {{2 MiB thread, main thread}} in an opt-level-0 build{}; each case in a supervised child process. Oracle: unbounded shapes must end with an error whose chain says 'recursion limit exceeded', bounded shapes may also succeed; never a signal, abort, panic or hang. distinct non-trivial = cases that ended in the recursion-limit error", all.len(), args.tier.pick(2, 3), args.tier.pick(2, 3), if args.tier == Tier::Thorough { " and the checked-release build, plus every limit 1..=500 for the non-macro-cycle and length-1 shapes" } else { "" }),
+            rule: format!("{} recursive program shapes: every macro cycle of length 1..={} whose edges are each wrapped by one of 8 scoped constructs (plain, call block, filter block, set block, for, with, if, autoescape) x 3 per-frame work decorations, x 7 things a frame does and gets back from before it recurses (nothing, a helper macro call, one on every other frame, a finished call block, an include, an imported helper, filters and tests); every include cycle of length 1..={} over 5 placements (top level, loop, macro, block, with+filter) and 5 spellings of the tag (plain, ignore missing, list of choices, both, list with an existing fallback); import cycles (top-level, inside macros, macro+include+import); recursive loops over 10 000-deep data, over self-similar data and inside macros; super() chains of 10..1200 templates; block self-calls, caller/higher-order/alias/default-argument/nested-definition recursion; x recursion_limit in {{1,2,3,7,50,250,499,500}} x {{2 MiB thread, main thread}} in an opt-level-0 build{}; each case in a supervised child process. Oracle: unbounded shapes must end with an error whose chain says 'recursion limit exceeded', bounded shapes may also succeed; never a signal, abort, panic or hang. distinct non-trivial = cases that ended in the recursion-limit error", all.len(), args.tier.pick(2, 3), args.tier.pick(2, 3), if args.tier == Tier::Thorough { " and the checked-release build, plus every limit 1..=500 for the non-macro-cycle and length-1 shapes" } else { "" }),
             exhaustive: true,
             bound: json!({"limits_quick": LIMITS_Q, "wrappers": WRAPPERS.iter().map(|w| w.0).collect::<Vec<_>>(), "work": WORK.iter().map(|w| w.0).collect::<Vec<_>>()}),
             assumptions: vec!["stack sizes: the platform's 8 MiB main thread and an explicit 2 MiB thread".into()],
